@@ -289,6 +289,10 @@ class Ctx:
                     out.append((n, n.func.attr, args))
                     continue
                 fq = self.repo.resolve_name(f.module, n.func) if isinstance(n.func, (ast.Name, ast.Attribute)) else None
+                if fq and fq.startswith("networkx.") and fq.endswith("Graph") and (n.args or any(k.arg == "incoming_graph_data" for k in n.keywords)):
+                    # a graph created from data (an edge list): the data is what is inserted
+                    out.append((n, fq.rsplit(".", 1)[-1] + "(data)", [n.args[0] if n.args else next(k.value for k in n.keywords if k.arg == "incoming_graph_data")]))
+                    continue
                 if fq and fq.startswith("networkx.") and n.args and self.is_graph(f, n.args[0]):
                     args = [a.value if isinstance(a, ast.Starred) else a for a in n.args[1:]] + [k.value for k in n.keywords]
                     out.append((n, fq, args))
@@ -433,8 +437,10 @@ class Flattening:
         self.ev = Evaluator(cx.repo, tolerant=True)
         self.objs: dict[object, Obj] = {}
         self.build_error: str | None = None
+        self.helpers: dict[object, dict[str, Obj]] = {}  # limit -> class fq -> the (only) object of that class built during construction
         for lim in LIMITS:
             try:
+                del self.ev.created[:]
                 o = self.ev._construct(cx.g, [[], []], {cx.limit_param: lim})
             except (Unknown, Raised) as e:
                 self.build_error = f"constructor not evaluable for limit {lim}: {e}"
@@ -443,6 +449,11 @@ class Flattening:
                 self.build_error = "constructor did not yield an object"
                 break
             self.objs[lim] = o
+            by_cls: dict[str, list[Obj]] = {}
+            for h in self.ev.created:
+                if h is not o:
+                    by_cls.setdefault(h.cls.fq, []).append(h)
+            self.helpers[lim] = {fq: hs[0] for fq, hs in by_cls.items() if len(hs) == 1}
         self.carriers: set[str] = set()
         if not self.build_error:
             keys = set().union(*[set(o.attrs) for o in self.objs.values()])
@@ -450,6 +461,14 @@ class Flattening:
                 sigs = {self._sig(o.attrs.get(k)) for o in self.objs.values()}
                 if len(sigs) > 1:
                     self.carriers.add(k)
+            # helper objects (a builder, a namer) that hold something derived from the limit
+            for fq in set().union(*[set(h) for h in self.helpers.values()]):
+                hs = [self.helpers[lim].get(fq) for lim in LIMITS]
+                if any(h is None for h in hs):
+                    continue
+                for k in set().union(*[set(h.attrs) for h in hs]):
+                    if len({self._sig(h.attrs.get(k)) for h in hs}) > 1:
+                        self.carriers.add(k)
         self.flat_exprs: dict[int, str] = {}  # id(expr) -> verdict
         self.verdicts: list[dict] = []
         # Import records of the concrete classes that the idealised model does not cover (tabulated in extra rounds)
@@ -457,6 +476,17 @@ class Flattening:
             self.records, self.records_failed = import_records(cx, Evaluator(cx.repo, tolerant=True))
         except (Unknown, Raised, AnalysisError) as e:
             self.records, self.records_failed = [], [f"Import classes: {e}"]
+
+    def receiver(self, f: FuncInfo, lim: object) -> object:
+        """The object a method of the construction code runs on when a graph with this limit is built: the graph itself, or the helper
+        object of the method's class that the constructor created."""
+        g = self.objs[lim]
+        if f.cls is None or any(c == f.cls for c in self.cx.repo.mro(g.cls)):
+            return g
+        for fq, h in self.helpers.get(lim, {}).items():
+            if any(c == f.cls for c in self.cx.repo.mro(h.cls)):
+                return h
+        return POISON
 
     @staticmethod
     def _sig(v: object) -> str:
@@ -614,7 +644,7 @@ class Flattening:
         local |= {n.name for n in own_nodes(f.node) if isinstance(n, (ast.MatchAs, ast.MatchStar)) and n.name} | {n.rest for n in own_nodes(f.node) if isinstance(n, ast.MatchMapping) and n.rest}
         is_method = f.cls is not None and f.outer is None and not f.is_staticmethod and bool(f.param_names)
         if is_method:
-            env[f.param_names[0]] = self.objs[lim]
+            env[f.param_names[0]] = self.receiver(f, lim)
         i = 0
         aliases: list[tuple[str, ast.expr]] = []
         raw_fallback: dict[str, object] = {}
@@ -858,7 +888,7 @@ class Flattening:
         for n in ast.walk(c):
             if isinstance(n, ast.Name) and isinstance(n.ctx, ast.Load):
                 if f.cls is not None and f.outer is None and not f.is_staticmethod and f.param_names and n.id == f.param_names[0]:
-                    env[n.id] = self.objs[lim]
+                    env[n.id] = self.receiver(f, lim)
                 elif n.id in f.param_names or any(isinstance(x, ast.Name) and x.id == n.id and isinstance(x.ctx, ast.Store) for x in own_nodes(f.node)):
                     env.setdefault(n.id, POISON)
         try:
@@ -910,6 +940,18 @@ class LoopFlow(Flow):
             self.node_tags[id(call)] = self.node_tags.get(id(call), frozenset()) | out
             return out
         return super()._call(fi, call, env)
+
+    def _expr_inner(self, fi: FuncInfo, e: ast.expr, env: dict):
+        t = super()._expr_inner(fi, e, env)
+        if isinstance(e, ast.Attribute) and ast.unparse(e) in env:
+            # the function assigned this field itself (`self._nodes = {}`), and the base engine then reads the local value only; methods
+            # called in between may have filled the field (`self._initialise()` records into the ledger): join what the field holds
+            for ci_fq in self._classes_of(fi, e.value):
+                ci = self.repo.classes.get(ci_fq)
+                if ci is not None:
+                    for c in [*self.repo.mro(ci), *self.repo.subclasses(ci)]:
+                        t = t | self.field_tags.get((c.fq, e.attr), frozenset())
+        return t
 
     def _stmt(self, fi: FuncInfo, s: ast.AST, env: dict) -> None:
         if isinstance(s, ast.Match):
@@ -1522,9 +1564,16 @@ def rule_r2(cx: Ctx, cons: list[FuncInfo], flow: Flow) -> None:
                     undecide(key, f"`{norm(node, 60)}` is not provably guarded by a test that its two ends differ, but {cf.qualname} compares two flattened names in `{norm(cn, 50)}`: the connection between that test and this insertion is not understood", where(f, node))
                     continue
                 judge(key, bool(ok), f"an edge is only added between two different (flattened) nodes ({why})" if ok else f"`{norm(node, 70)}` is not guarded by a test that `{norm(u, 30)}` and `{norm(v, 30)}` differ: sub modules collapsed into one node import 'themselves'", where(f, node))
-            elif short in BULK_EDGE_ADDERS:
+            elif short in BULK_EDGE_ADDERS or short.endswith("Graph(data)"):
                 n += 1
                 src = args[0] if args else None
+                if short.endswith("Graph(data)"):
+                    short = "add_edges_from"  # a graph created from an edge list inserts that list
+                led = _ledger_of(f, src) if isinstance(src, (ast.Attribute, ast.Name)) else None
+                if led is not None and led in ledgers and ledger_ok.get(led):
+                    wf, wn, _a, _b = ledgers[led][0]
+                    judge(key, True, f"the inserted pairs are those recorded in `{led[-1]}`, each of which is tested first (`{header(stmt_of(wn))}` in {wf.qualname})", where(f, node))
+                    continue
                 elt = None
                 if isinstance(src, (ast.ListComp, ast.GeneratorExp, ast.SetComp)) and isinstance(src.elt, ast.Tuple) and len(src.elt.elts) >= 2:
                     elt = src.elt
@@ -1534,6 +1583,10 @@ def rule_r2(cx: Ctx, cons: list[FuncInfo], flow: Flow) -> None:
                     undecide(key, f"edges inserted in bulk through {short}: the pairs cannot be identified", where(f, node))
                     continue
                 ok, why = guarded_distinct(cx, cons, f, elt, elt.elts[0], elt.elts[1])
+                if not ok:
+                    led = _read_from_ledger(f, elt, elt.elts[0], elt.elts[1], ledgers)
+                    if led is not None and ledger_ok.get(led):
+                        ok, why = True, f"the pairs are read from `{led[-1]}`, and every pair recorded there is tested first"
                 if ok is None:
                     undecide(key, why, where(f, node))
                     continue
@@ -1683,8 +1736,17 @@ def rule_r6(cx: Ctx, records: list[tuple]) -> bool:
 
     def factory(args: list, kwargs: dict):
         g = ModelGraph()
-        if args or kwargs:
-            g.unreliable = "the networkx graph is created from existing data"
+        data = args[0] if args else kwargs.get("incoming_graph_data")
+        if len(args) > 1 or set(kwargs) - {"incoming_graph_data"}:
+            g.unreliable = "the networkx graph is created with attributes"
+        elif data is not None:
+            if data is POISON or isinstance(data, (str, dict, Obj, NativeObj)):
+                g.unreliable = "the networkx graph is created from data that is not a list of edges"
+            else:
+                try:
+                    g.add_edges_from(list(data))
+                except TypeError:
+                    g.unreliable = "the networkx graph is created from data that is not a list of edges"
         created.append(g)
         return g.native
 
@@ -2140,7 +2202,9 @@ def run(repo: Repo) -> Result:
                 p["where"], kind="flow",
             )
     if "C09.R1" in res.floors:
-        res.floor("C09.R1", res.floors["C09.R1"][0], getattr(cx, "r1_count", res.floors["C09.R1"][1]))
+        # a design that inserts in bulk (`add_nodes_from(ledger)`, `add_edges_from(...)`) has fewer sinks than today's code: one judged
+        # sink is enough when the evaluated constructor confirms the quotient, otherwise the old floor guards against a vacuous pass
+        res.floor("C09.R1", 1 if r6_passed else res.floors["C09.R1"][0], getattr(cx, "r1_count", res.floors["C09.R1"][1]))
     for pkey, detail, wh in cx.pending_unary:
         if tabulated:
             res.observe(f"C09.R2: {detail} - judged by the construction table (C09.R6)")
